@@ -6,6 +6,7 @@ import (
 	"sync/atomic"
 
 	"github.com/skycoin/skycoin/src/cipher"
+	"github.com/skycoin/skycoin/src/visor"
 )
 
 // Concurrent readers. A real node answers balance / outputs / block queries (read-only database
@@ -52,7 +53,7 @@ func (h *H) startReaders(n int) {
 				m := mons[rng.Intn(len(mons))]
 				v := m.N.V
 				var err error
-				switch rng.Intn(5) {
+				switch rng.Intn(9) {
 				case 0, 1:
 					ids, _ := rs.ids.Load().([]cipher.SHA256)
 					if len(ids) > 0 {
@@ -69,6 +70,15 @@ func (h *H) startReaders(n int) {
 					_, err = v.GetAllUnspentOutputs()
 				case 4:
 					_, err = v.GetBlockchainMetadata()
+				case 5:
+					_, err = v.GetAllUnconfirmedTransactions()
+				case 6:
+					a := rs.addrs[rng.Intn(len(rs.addrs))]
+					_, _, err = v.GetTransactions([]visor.TxFilter{visor.NewAddrsFilter([]cipher.Address{a})}, visor.AscOrder, nil)
+				case 7:
+					_, err = v.GetUnspentOutputsSummary(nil)
+				case 8:
+					_, err = v.GetLastBlocks(3)
 				}
 				rs.mu.RUnlock()
 				atomic.AddInt64(&rs.reads, 1)
